@@ -179,6 +179,18 @@ class Bench:
             got = [x for x in s.sent_on(11, m4) if x.type == R.PAYLOAD and x.next]
             if [bytes(x.data) for x in got] != [b'g0', b'g1']:
                 bad('fresh-probe-served', 'server/request-stream', 'probe stream produced %s' % s.sent_on(11, m4))
+            # requests the endpoint itself issues afterwards (two: a hostile LEASE may have granted one)
+            for k in (1, 2):
+                m6 = len(s.log)
+                fr = watch_future(s.w, s.ep, 'own%d' % k, s.sock.request_response(P(b'own%d' % k)))
+                s.settle()
+                req = [x for x in s.sent(m6) if x.type == R.REQUEST_RESPONSE]
+                if len(req) != 1:
+                    bad('fresh-probe-served', 'server/own-request-not-sent', 'request %d issued by the endpoint after the input: frames %s' % (k, req))
+                    break
+                s.peer(R.enc_payload(req[0].sid, b'R:own', complete=True))
+                if fr['state'] != 'result' or fr['value'] != (b'R:own', b''):
+                    bad('fresh-probe-served', 'server/own-request-response', 'own request %d: %s %s' % (k, fr['state'], fr['value']))
         else:
             if self.INFL not in offending_sids:
                 s.peer(R.enc_payload(self.INFL, b'R:late', complete=True))
@@ -199,6 +211,17 @@ class Bench:
                 s.peer(R.enc_payload(req[0].sid, b'R:probe', complete=True))
                 if fr['state'] != 'result' or fr['value'] != (b'R:probe', b''):
                     bad('fresh-probe-served', 'client/request-response', 'probe awaitable: %s %s' % (fr['state'], fr['value']))
+            m7 = len(s.log)
+            sub2 = RecSubscriber(s.w, s.ep, 'probe2')
+            s.sock.request_stream(P(b'probe2')).initial_request_n(3).subscribe(sub2)
+            s.settle()
+            req2 = [x for x in s.sent(m7) if x.type == R.REQUEST_STREAM]
+            if len(req2) != 1:
+                bad('fresh-probe-served', 'client/second-request-not-sent', 'second probe (request-stream) frames: %s' % req2)
+            else:
+                s.peer(R.enc_payload(req2[0].sid, b'p2', complete=True))
+                if sub2.elements() != [(b'p2', b'')]:
+                    bad('fresh-probe-served', 'client/request-stream', 'second probe subscriber got %s' % (sub2.signals,))
             # the peer can still open streams towards us
             m5 = len(s.log)
             s.peer(R.enc_request(R.REQUEST_RESPONSE, 40, b'sp'))
@@ -278,7 +301,9 @@ def hostile_items(role, flavour):
     it['duplicate-setup'] = ([R.enc_setup()], {0}, True)
     it['resume'] = ([R.enc_resume()], {0}, True)
     it['resume-ok'] = ([R.enc_resume_ok(3)], {0}, True)
-    it['lease'] = ([R.enc_lease(1000, 1)], {0}, True)
+    it['lease'] = ([R.enc_lease(1000, 1)], {0}, True)  # nobody negotiated leases on this connection
+    it['lease-zero'] = ([R.enc_lease(0, 0)], {0}, True)
+    it['lease-count0'] = ([R.enc_lease(60000, 0)], {0}, True)
     it['keepalive-respond'] = ([R.enc_keepalive(True, b'ka')], {0}, True)
     it['keepalive-norespond'] = ([R.enc_keepalive(False, b'ka')], {0}, True)
     it['metadata-push-nonzero-stream'] = ([R.enc_metadata_push(b'mp', sid=peer_unknown)], {peer_unknown}, True)
